@@ -92,7 +92,7 @@ NextSim ==
   /\ (out'.cmd \in {"restore", "empty", "rm", "rmdir"} => svars' # svars)
   \* two entries with the same path and second are indistinguishable in a listing: which of them an index denotes is
   \* open, so such restores are not replayed (they are still judged, as observed steps, by TrashTrace)
-  /\ (out'.cmd = "restore" => ~out'.undef)      \* cases the properties leave open are not replayed
+  /\ (out'.cmd = "restore" => ~out'.undef /\ ~out'.sundef)      \* cases the properties leave open are not replayed
   /\ (out'.cmd = "restore" =>
         \A x, y \in Offerable(cfg, St, out'.from, "none") :
            (x.date = y.date /\ x.r = y.r /\ x.d = y.d /\ x.n = y.n) => x = y)
